@@ -1,6 +1,7 @@
 import FimVerif.Proofs.Lemmas.C11Spec
 import FimVerif.Proofs.Lemmas.C11Pdp
 import FimVerif.Proofs.Lemmas.C11Log
+import FimVerif.Proofs.Lemmas.C11Validate
 /-!
 # C11 — authorization and accounting attributes cover every resource, in any order
 
@@ -396,5 +397,261 @@ theorem legacy_mirror_counterexample :
 
 /-- non-vacuity of the hypothesis of `sound` -/
 example : Key.RESOURCE_MIRROR_SITE ∈ nstypeLut.map (·.2) := by decide
+
+/-! ### the whole property, clause by clause -/
+
+/-- a mirrored port whose name merely *extends*, *shortens* or re-cases the name of a port of the slice is a foreign port:
+the exemption is exact equality of the names (`s.mport ∈ inPorts`), so its site is named (corpus/C11/05) -/
+theorem mirror_of_related_port_name_listed :
+    let own := "HundredGigE0/0/0/1"
+    ∀ foreign ∈ ["HundredGigE0/0/0/10", "HundredGigE0/0/0/1.100", "HundredGigE0/0/0/", "hundredgige0/0/0/1", ""],
+      get (collect ⟨[], [⟨"pm", "PortMirror", "RENC", none, some foreign⟩], [], [some (some own)]⟩) .RESOURCE_MIRROR_SITE = [.s "RENC"] ∧
+      get (collect ⟨[], [⟨"pm", "PortMirror", "RENC", none, some own⟩], [], [some (some own)]⟩) .RESOURCE_MIRROR_SITE = [] := by
+  decide
+
+/-- a VM without capacities and without allocation (sized by an instance-type hint, or not at all) is a VM: it is
+counted, adds no cores and no capacity record -/
+theorem vm_without_capacities_counted (l : Log) (n : NodeS) (ht : n.ntype = "VM") (hc : n.caps = none) (ha : n.alloc = none) :
+    (logNode l n).vm = l.vm + 1 ∧ (logNode l n).cores = l.cores ∧ (logNode l n).nodes = l.nodes := by
+  have hv : n.ntype = vmType := ht
+  refine ⟨?_, ?_, ?_⟩
+  · rw [logNode_vm, if_pos hv]
+  · rw [logNode_cores]; simp [vmCap, hv, hc, ha]
+  · rw [logNode_nodes]; simp [vmCap, hv, hc, ha]
+
+/-- Every clause of the property, for one slice as the collectors see it. -/
+structure AuthzClaims (sl : Slice) : Prop where
+  /-- every site used - by a node or by a service - is named -/
+  every_site : ∀ x, x ≠ "" → ((∃ n ∈ sl.nodes, n.site = x) ∨ (∃ s ∈ sl.svcs, s.site = x)) →
+    Val.s x ∈ get (collect sl) .RESOURCE_SITE
+  /-- and only the sites used are named, each once (duplicated sites collapse; names are compared exactly) -/
+  only_sites : (get (collect sl) .RESOURCE_SITE).Nodup ∧ ∀ v ∈ get (collect sl) .RESOURCE_SITE,
+    ∃ x, v = .s x ∧ x ≠ "" ∧ ((∃ n ∈ sl.nodes, n.site = x) ∨ (∃ s ∈ sl.svcs, s.site = x))
+  /-- every attached component type, once per component -/
+  every_component_type : get (collect sl) .RESOURCE_COMPONENT = sl.nodes.flatMap fun n => (n.comps.getD []).map Val.s
+  /-- CPU, RAM and disk of every node that has capacities, one entry per node, in stored order -/
+  cpu_ram_disk_of_every_node :
+    get (collect sl) .RESOURCE_CPU = (sl.nodes.filterMap (·.caps)).map (fun c => .i c.core) ∧
+    get (collect sl) .RESOURCE_RAM = (sl.nodes.filterMap (·.caps)).map (fun c => .i c.ram) ∧
+    get (collect sl) .RESOURCE_DISK = (sl.nodes.filterMap (·.caps)).map (fun c => .i c.disk)
+  /-- the bandwidth of every service that has capacities -/
+  bandwidth_of_every_service : get (collect sl) .RESOURCE_BW = (sl.svcs.filterMap (·.bw)).map Val.i
+  /-- every facility -/
+  every_facility : get (collect sl) .RESOURCE_FACILITY_PORT = sl.facs.map Val.s
+  /-- the site of every externally routed service, under the attribute of its kind -/
+  ext_service_sites : ∀ s ∈ sl.svcs,
+    (s.stype = "FABNetv4Ext" → Val.s (effSite s) ∈ get (collect sl) .RESOURCE_FABNETV4_EXT) ∧
+    (s.stype = "FABNetv6Ext" → Val.s (effSite s) ∈ get (collect sl) .RESOURCE_FABNETV6_EXT)
+  /-- the site of every port-mirror service whose mirrored port is not (exactly) one of the slice's ports -/
+  foreign_mirror_sites : ∀ s ∈ sl.svcs, s.stype = "PortMirror" → s.mport ∉ inPorts sl.ifaces →
+    Val.s (effSite s) ∈ get (collect sl) .RESOURCE_MIRROR_SITE
+  /-- a site is listed under one of the three per-kind attributes only on behalf of such a service of that kind; each once -/
+  listed_only_for_such : ∀ k ∈ nstypeLut.map (·.2), (get (collect sl) k).Nodup ∧ ∀ v ∈ get (collect sl) k,
+    ∃ s ∈ sl.svcs, lutFind s.stype nstypeLut = some k ∧ ¬ exempt (inPorts sl.ifaces) s ∧ v = .s (effSite s)
+  /-- the resource type is the switch type iff some node is a switch, whatever the order -/
+  resource_type : get (collect sl) .RESOURCE_TYPE =
+    if sl.nodes.any (fun n => decide (n.ntype = switchNodeType)) then [.s switchType] else [.s initType]
+  /-- nothing else is collected -/
+  nothing_else : ∀ k ∈ keys (collect sl), k ∈ sliceKeys
+  /-- the result does not depend on the order in which nodes, services, facilities or interfaces are stored -/
+  order_independent : ∀ sl', SlicePerm sl sl' →
+    (∀ k, (get (collect sl) k).Perm (get (collect sl') k)) ∧ (keys (collect sl)).Perm (keys (collect sl'))
+  /-- the PDP request exists and carries every collected attribute, with its data type and all its values, in the
+  resource category (the first of the request) -/
+  request : ∃ req, toPdp (collect sl) = some req ∧ req.map (·.1) = categories ∧
+    ∀ k v, (k, v) ∈ collect sl → ∃ dt cat as, k.dataType = some dt ∧ k.category = some cat ∧
+      categories.head? = some cat ∧ (cat, as) ∈ req ∧ (⟨k.id, dt, v⟩ : PAttr) ∈ as
+  /-- accounting: VMs (every node of type VM, with or without capacities), switches, cores and capacity records
+  (allocation preferred), components by type, services, sites, facilities equal a direct tally -/
+  accounting :
+    (logCollect sl).vm = (sl.nodes.filter fun n => decide (n.ntype = "VM")).length ∧
+    (logCollect sl).p4 = (sl.nodes.filter fun n => decide (n.ntype = "Switch")).length ∧
+    (logCollect sl).nodes = sl.nodes.filterMap vmCap ∧
+    (logCollect sl).cores = isum ((sl.nodes.filterMap vmCap).map (·.core)) ∧
+    (∀ t, cnt (logCollect sl).comps t = (sl.nodes.flatMap fun n => n.comps.getD []).count t) ∧
+    (logCollect sl).svcs = sl.svcs.map (fun s => (s.stype, s.bw.getD 0)) ∧
+    (∀ x, x ∈ (logCollect sl).sites ↔ x ≠ "" ∧ ((∃ n ∈ sl.nodes, n.site = x) ∨ (∃ s ∈ sl.svcs, s.site = x))) ∧
+    (∀ x, x ∈ (logCollect sl).facs ↔ x ∈ sl.facs ∨ ∃ n ∈ sl.nodes, n.ntype = "Facility" ∧ n.name = x) ∧
+    (logCollect sl).sites.Nodup ∧ (logCollect sl).facs.Nodup
+  /-- and the accounting summary does not depend on the stored order either -/
+  accounting_order_independent : ∀ sl', SlicePerm sl sl' →
+    (logCollect sl).vm = (logCollect sl').vm ∧ (logCollect sl).p4 = (logCollect sl').p4 ∧
+    (logCollect sl).cores = (logCollect sl').cores ∧ ((logCollect sl).nodes).Perm (logCollect sl').nodes ∧
+    (∀ t, cnt (logCollect sl).comps t = cnt (logCollect sl').comps t) ∧
+    ((logCollect sl).svcs).Perm (logCollect sl').svcs ∧
+    ((logCollect sl).sites).Perm (logCollect sl').sites ∧ ((logCollect sl).facs).Perm (logCollect sl').facs
+
+theorem flatMap_optVal_map {α β : Type} (f : α → Option β) (g : β → Val) (xs : List α) :
+    (xs.flatMap fun x => optVal ((f x).map g)) = (xs.filterMap f).map g := by
+  induction xs with
+  | nil => rfl
+  | cons x xs ih =>
+    simp only [List.flatMap_cons, ih, List.filterMap_cons]
+    cases f x <;> simp [optVal]
+
+/-- every clause holds for every slice -/
+theorem authz_claims (sl : Slice) : AuthzClaims sl where
+  every_site := by
+    intro x hx h
+    rcases h with ⟨n, hn, rfl⟩ | ⟨s, hs, rfl⟩
+    · exact ((complete sl).1 n hn).1 hx
+    · exact ((complete sl).2.1 s hs).1 hx
+  only_sites := by
+    rw [collect_spec]
+    refine ⟨nodup_dedup _, ?_⟩
+    intro v hv
+    simp only [spec, mem_dedup, List.mem_append, List.mem_flatMap] at hv
+    rcases hv with ⟨n, hn, hv⟩ | ⟨s, hs, hv⟩
+    · by_cases h : n.site = "" <;> simp [siteVal, h] at hv
+      exact ⟨n.site, hv, h, Or.inl ⟨n, hn, rfl⟩⟩
+    · by_cases h : s.site = "" <;> simp [siteVal, h] at hv
+      exact ⟨s.site, hv, h, Or.inr ⟨s, hs, rfl⟩⟩
+  every_component_type := by rw [collect_spec]; rfl
+  cpu_ram_disk_of_every_node := by
+    refine ⟨?_, ?_, ?_⟩ <;> rw [collect_spec] <;> exact flatMap_optVal_map _ _ _
+  bandwidth_of_every_service := by rw [collect_spec]; exact flatMap_optVal_map _ _ _
+  every_facility := by rw [collect_spec]; rfl
+  ext_service_sites := fun s hs => ⟨(complete_named sl s hs).1, (complete_named sl s hs).2.1⟩
+  foreign_mirror_sites := fun s hs => (complete_named sl s hs).2.2
+  listed_only_for_such := by
+    intro k hk
+    refine ⟨?_, sound sl k hk⟩
+    obtain ⟨h1, h2, h3, h4, h7, h5, h6, h8⟩ := lut_disjoint k hk
+    rw [collect_spec, spec_default sl k h1 h2 h3 h4 h5 h6 h7 h8]
+    exact nodup_dedup _
+  resource_type := by rw [collect_spec]; rfl
+  nothing_else := collected_keys sl
+  order_independent := fun _ h => ⟨perm_invariant h, keys_perm_invariant h⟩
+  request := by
+    obtain ⟨req, hreq, hcats, _, hall⟩ := pdp_request_wellformed sl
+    refine ⟨req, hreq, hcats, ?_⟩
+    intro k v hm
+    obtain ⟨_, dt, cat, hdt, hcat, hin, hrow⟩ := hall k v hm
+    have hk : k ∈ keys (collect sl) := List.mem_map.mpr ⟨(k, v), hm, rfl⟩
+    obtain ⟨hrc, hhead⟩ := collected_in_resource_category sl k hk
+    have : cat ∈ req.map (·.1) := by rw [hcats]; exact hin
+    obtain ⟨p, hp, hp1⟩ := List.mem_map.mp this
+    refine ⟨dt, cat, p.2, hdt, hcat, ?_, ?_, ?_⟩
+    · rw [← hhead, ← hrc, hcat]
+    · rw [← hp1]; exact hp
+    · have := hrow p.1 p.2 hp
+      rw [hp1, if_pos rfl] at this
+      have hmem : (⟨k.id, dt, v⟩ : PAttr) ∈ p.2.filter (fun x => decide (x.id = k.id)) := by rw [this]; simp
+      exact (List.mem_filter.mp hmem).1
+  accounting := by
+    obtain ⟨h1, h2, h3, h4, h5, h6, h7, h8, h9, h10⟩ := log_counts sl
+    exact ⟨by rw [h1, List.countP_eq_length_filter], by rw [h2, List.countP_eq_length_filter], h3, h4, h5, h6, h7, h8, h9, h10⟩
+  accounting_order_independent := fun _ h => log_perm_invariant h
+
+/-! ### the layers under the collectors, as named hypotheses -/
+
+/-- The parts of the library the collectors stand on, as far as the property depends on them. `G` is whatever a stored
+slice graph is. -/
+structure Layers (G : Type) where
+  /-- **H_present** (C02/C07 territory, not proved here): what `topo.nodes`, `network_services`, `facilities`,
+  `interface_list` and `get_sliver()` present of a graph: node slivers, services with their *declared* site plus what
+  `validate()` reads of them (owner sites of their interfaces, whether the type limits sites), facility names, the
+  labels of the peers of the node interfaces. Every statement below is about the slice *as presented*. -/
+  present : G → RawSlice
+  /-- `ExperimentTopology(graph_string = asm.serialize_graph())` inside `_collect_attributes_from_asm` -/
+  reimport : G → G
+  /-- `Topology.validate()`; `none` = it raises -/
+  validate : G → Option G
+
+/-- the hypotheses, by name -/
+structure Layers.Hyp {G : Type} (L : Layers G) : Prop where
+  /-- **H_roundtrip** (C01: `roundtrip_import_string` shows the re-imported graph is the stored one up to internal node
+  ids and GraphID): serialising and importing again presents the same slivers. -/
+  H_roundtrip : ∀ g, L.present (L.reimport g) = L.present g
+  /-- **H_validate_records_sites** (C10: discharged for C10's model of `validate()` by
+  `Authz.validate10_records_sites`): a successful `validate()` changes nothing the collectors read except the sites of
+  the services, which become the inferred ones. -/
+  H_validate_records_sites : ∀ g g', L.validate g = some g' → L.present g' = stamp (L.present g)
+
+/-- the slivers the collectors read of what is presented (no inference of their own) -/
+def seen (rs : RawSlice) : Slice := { nodes := rs.nodes, svcs := rs.svcs.map (·.svc), facs := rs.facs, ifaces := rs.ifaces }
+
+theorem seen_stamp (rs : RawSlice) : seen (stamp rs) = recordSites rs := by
+  unfold seen stamp recordSites
+  simp [List.map_map, Function.comp_def]
+
+theorem stamp_stamp_seen (rs : RawSlice) : seen (stamp (stamp rs)) = seen (stamp rs) := by
+  rw [seen_stamp, seen_stamp, recordSites_stamp]
+
+/-- **C11, every clause.** Let `g` be a slice graph on which `validate()` succeeds (**H_valid**; C10 says when) giving
+the validated topology `gv`, and let the layers satisfy the named hypotheses `H`. Then, for the slice the validated
+topology presents to the collectors:
+
+* `AuthzClaims`: the authorization request names every site, every component type, the CPU/RAM/disk of every node, the
+  bandwidth of every service, every facility, the site of every FABNetv4Ext/FABNetv6Ext service and of every PortMirror
+  service whose mirrored port is not a port of the slice, and lists per-kind sites only for those; nothing depends on the
+  stored order of nodes, services, facilities, interfaces (`List.Perm`); the PDP request carries all of it in the
+  resource category; the accounting counts equal a direct tally (VMs with or without capacities, switches, cores,
+  components by type, services, sites, facilities) and are order independent;
+* that slice is the raw slice with the inferred sites recorded (`recordSites`);
+* collecting from the serialised model - serialised before `validate()` ever ran (`g`) or after it (`gv`) - gives the
+  same attributes and the same accounting summary as collecting from the validated topology object, whenever the
+  `validate()` call inside the ASM path succeeds. -/
+theorem authz_complete_sound_order_independent {G : Type} (L : Layers G) (H : L.Hyp) (g gv : G)
+    (H_valid : L.validate g = some gv) :
+    AuthzClaims (seen (L.present gv)) ∧
+    seen (L.present gv) = recordSites (L.present g) ∧
+    (∀ g2, L.validate (L.reimport g) = some g2 →
+      collect (seen (L.present g2)) = collect (seen (L.present gv)) ∧
+      logCollect (seen (L.present g2)) = logCollect (seen (L.present gv))) ∧
+    (∀ g3, L.validate (L.reimport gv) = some g3 →
+      collect (seen (L.present g3)) = collect (seen (L.present gv)) ∧
+      logCollect (seen (L.present g3)) = logCollect (seen (L.present gv))) := by
+  have hv := H.H_validate_records_sites g gv H_valid
+  refine ⟨authz_claims _, by rw [hv, seen_stamp], ?_, ?_⟩
+  · intro g2 h2
+    have : L.present g2 = L.present gv := by
+      rw [H.H_validate_records_sites _ g2 h2, H.H_roundtrip, hv]
+    rw [this]; exact ⟨rfl, rfl⟩
+  · intro g3 h3
+    have : seen (L.present g3) = seen (L.present gv) := by
+      rw [H.H_validate_records_sites _ g3 h3, H.H_roundtrip, hv, stamp_stamp_seen]
+    rw [this]; exact ⟨rfl, rfl⟩
+
+/-- non-vacuity: layers that satisfy the hypotheses (graphs = raw slices, validate = record the inferred sites), and a
+slice with an undeclared external service on which `H_valid` holds -/
+def exLayers : Layers RawSlice := { present := id, reimport := id, validate := fun rs => some (stamp rs) }
+
+example : exLayers.Hyp := ⟨fun _ => rfl, fun g g' h => by simp only [exLayers, Option.some.injEq] at h; subst h; rfl⟩
+
+example : exLayers.validate ⟨[], [⟨⟨"v4a", "FABNetv4Ext", "", none, none⟩, ["RENC"], true⟩], [], []⟩
+    = some ⟨[], [⟨⟨"v4a", "FABNetv4Ext", "RENC", none, none⟩, ["RENC"], true⟩], [], []⟩ := by
+  simp [exLayers, stamp, inferSite, addSet]
+
+/-- **C10 tie, per service**: the site `Authz.inferSite` gives a service is the site C10's model of
+`__validate_nstype_constraints` leaves on it (`recordedSiteOf`), for every constraint row and every list of interfaces
+(`None` and `''` both read as "no site"). -/
+theorem inferSite_is_c10_recordedSite (row : Gen.Constraints.SvcRow) (s : Validate.Svc) (n : List Validate.NIface) (sv : SvcS)
+    (hsite : sv.site = siteStr s.site) :
+    (inferSite ⟨sv, n.filterMap (·.owner), row.numSites != 0⟩).site = siteStr (FimVerif.Validate.recordedSiteOf row s n) :=
+  inferSite_eq_recordedSiteOf row s n sv hsite
+
+example : (⟨"v4a", "FABNetv4Ext", "", none, none⟩ : SvcS).site = siteStr (none : Option String) := rfl
+
+/-- **C10 tie, per slice**: for every constraint table, a successful `Validate.validate` (C10's model of
+`Topology.validate()`) turns what the collectors are presented with into its `stamp`. -/
+theorem validate_records_inferred_sites (c : Validate.Cfg) (g g' : G10) (h : validate10 c g = some g') :
+    present10 c g' = stamp (present10 c g) := validate10_records_sites c g g' h
+
+/-- **The same with `validate()` as C10 models it** (`Validate.validate` on the regenerated constraint tables, wrapped as
+`validate10`): hypothesis `H_validate_records_sites` is discharged by C10's `site_recorded`; what remains assumed is the
+round trip (`H_roundtrip`, C01) and that validation succeeds (`H_valid`; C10's `validate_iff_spec` says exactly when). -/
+theorem authz_paths_agree_with_c10_validate (reimport : G10 → G10)
+    (H_roundtrip : ∀ g, present10 Validate.genCfg (reimport g) = present10 Validate.genCfg g)
+    (g gv : G10) (H_valid : validate10 Validate.genCfg g = some gv) :
+    let sl := seen (present10 Validate.genCfg gv)
+    AuthzClaims sl ∧ sl = recordSites (present10 Validate.genCfg g) ∧
+    (∀ g2, validate10 Validate.genCfg (reimport g) = some g2 →
+      collect (seen (present10 Validate.genCfg g2)) = collect sl ∧ logCollect (seen (present10 Validate.genCfg g2)) = logCollect sl) ∧
+    (∀ g3, validate10 Validate.genCfg (reimport gv) = some g3 →
+      collect (seen (present10 Validate.genCfg g3)) = collect sl ∧ logCollect (seen (present10 Validate.genCfg g3)) = logCollect sl) :=
+  authz_complete_sound_order_independent
+    { present := present10 Validate.genCfg, reimport := reimport, validate := validate10 Validate.genCfg }
+    ⟨H_roundtrip, validate10_records_sites Validate.genCfg⟩ g gv H_valid
 
 end FimVerif.C11
